@@ -95,8 +95,21 @@ const IV: Label = Label::Int(iana::HeaderParameter::Iv as i64);
 const PARTIAL_IV: Label = Label::Int(iana::HeaderParameter::PartialIv as i64);
 const COUNTER_SIG: Label = Label::Int(iana::HeaderParameter::CounterSignature as i64);
 
-impl AsCborValue for Header {
-    fn from_cbor_value(value: Value) -> Result<Self> {
+/// Maximum depth to which headers may nest: a header can hold counter signatures, each of which
+/// holds headers that can in turn hold counter signatures.  Protected headers are parsed afresh from
+/// inside a `bstr`, so without a limit of our own the nesting depth of (untrusted) input would be
+/// bounded only by its length, not by the CBOR parser's recursion limit.
+pub(crate) const MAX_HEADER_NESTING: usize = 16;
+
+impl Header {
+    /// Convert a [`Value`] into a `Header` that sits `depth` levels of counter signature below the
+    /// outermost header.
+    pub(crate) fn from_cbor_value_nested(value: Value, depth: usize) -> Result<Self> {
+        if depth > MAX_HEADER_NESTING {
+            return Err(CoseError::DecodeFailed(
+                crate::cbor::de::Error::RecursionLimitExceeded,
+            ));
+        }
         let m = value.try_as_map()?;
         let mut headers = Self::default();
         let mut seen = BTreeSet::new();
@@ -178,14 +191,19 @@ impl AsCborValue for Header {
                     // - If it's a bstr, sig_or_sigs is a single signature.
                     // - If it's an array, sig_or_sigs is an array of signatures
                     match &sig_or_sigs[0] {
-                        Value::Bytes(_) => headers
-                            .counter_signatures
-                            .push(CoseSignature::from_cbor_value(Value::Array(sig_or_sigs))?),
+                        Value::Bytes(_) => {
+                            headers
+                                .counter_signatures
+                                .push(CoseSignature::from_cbor_value_nested(
+                                    Value::Array(sig_or_sigs),
+                                    depth + 1,
+                                )?)
+                        }
                         Value::Array(_) => {
                             for sig in sig_or_sigs.into_iter() {
                                 headers
                                     .counter_signatures
-                                    .push(CoseSignature::from_cbor_value(sig)?);
+                                    .push(CoseSignature::from_cbor_value_nested(sig, depth + 1)?);
                             }
                         }
                         v => return cbor_type_error(v, "array or bstr value"),
@@ -204,6 +222,12 @@ impl AsCborValue for Header {
             }
         }
         Ok(headers)
+    }
+}
+
+impl AsCborValue for Header {
+    fn from_cbor_value(value: Value) -> Result<Self> {
+        Self::from_cbor_value_nested(value, 0)
     }
 
     fn to_cbor_value(mut self) -> Result<Value> {
@@ -361,12 +385,18 @@ impl ProtectedHeader {
     /// Constructor from a [`Value`] that holds a `bstr` encoded header.
     #[inline]
     pub fn from_cbor_bstr(val: Value) -> Result<Self> {
+        Self::from_cbor_bstr_nested(val, 0)
+    }
+
+    /// Constructor from a [`Value`] that holds a `bstr` encoded header which sits `depth` levels of
+    /// counter signature below the outermost header.
+    pub(crate) fn from_cbor_bstr_nested(val: Value, depth: usize) -> Result<Self> {
         let data = val.try_as_bytes()?;
         let header = if data.is_empty() {
             // An empty bstr is used as a short cut for an empty header map.
             Header::default()
         } else {
-            Header::from_slice(&data)?
+            Header::from_cbor_value_nested(crate::common::read_to_value(&data)?, depth)?
         };
         Ok(ProtectedHeader {
             original_data: Some(data),
